@@ -76,3 +76,12 @@ Lemma final_equal_less_icase : forall a b,
 Proof.
   intros a b. split; [apply equal_icase_spec|]. split; [apply less_icase_is_strcmp | apply less_icase_is_compare_icase].
 Qed.
+
+Lemma final_split_degenerate : forall sepc seps str limit,
+  split_char sepc str 0 = [] /\ split_str seps str 0 = [] /\
+  (1 <= limit -> split_str [] str limit = limit_spec (join []) (map (fun c => [c]) str) (N.to_nat limit) /\
+                 join [] (split_str [] str limit) = str).
+Proof.
+  intros sepc seps str limit. destruct (split_limit_zero sepc seps str) as [H1 H2].
+  split; [exact H1|]. split; [exact H2|]. intros H. now apply split_str_empty_limit.
+Qed.
